@@ -73,6 +73,7 @@ fn main() {
             "c05_weight_sum" => batch::c05_weight_sum(r),
             "c14" => c14::c14(r),
             "c14_votes" => c14::c14_votes(r),
+            "c13_unlock" => c14::c13_unlock(r),
             other => json!({"error": format!("unknown kind {other}")}),
         };
         outs.push(out);
